@@ -49,6 +49,28 @@ pub fn replay(cases: &str, verdicts: &str) {
             let ok = got.as_ref().map(|g| close_vec(g, &x)).unwrap_or(false);
             v.check(ok, name, &class, &c, json!(got.as_ref().map(|g| fjs(g))));
         }
+        // homogeneity (Inv_SolveHomogeneous): (s A) X' = t B has X' = (t / s) X; powers of two keep the oracle exact.
+        // A tiny or huge matrix, a tiny right-hand side: no absolute threshold may enter
+        if v.cases % 3 == 0 {
+            for (sa, sb) in [(-110i32, 0i32), (0, -60), (60, -60), (90, 200)] {
+                let (fa, fb) = (2f64.powi(sa), 2f64.powi(sb));
+                let a2: Vec<f64> = a.iter().map(|t| t * fa).collect();
+                let b2: Vec<f64> = b.iter().map(|t| t * fb).collect();
+                let f = 2f64.powi(sb - sa);
+                let x2: Vec<f64> = x.iter().map(|t| t * f).collect();
+                for (name, got) in entry_points(&a2, &b2, n, k) {
+                    let sc = x2.iter().fold(f, |m, t| m.max(t.abs()));
+                    let ok = got.as_ref().map(|g| g.len() == x2.len() && g.iter().zip(&x2).all(|(p, q)| p.is_finite() && (p - q).abs() <= 2f64.powi(-30) * sc)).unwrap_or(false);
+                    v.check(ok, name, &format!("{} scaled", class), &json!({"case": c, "scale_a_log2": sa, "scale_b_log2": sb}), json!(got.as_ref().map(|g| fjs(g))));
+                }
+                let inv2: Vec<f64> = inv.iter().map(|t| t / fa).collect();
+                for (name, got) in inverse_points(&a2, n) {
+                    let sc = inv2.iter().fold(1.0 / fa, |m, t| m.max(t.abs()));
+                    let ok = got.as_ref().map(|g| g.len() == inv2.len() && g.iter().zip(&inv2).all(|(p, q)| p.is_finite() && (p - q).abs() <= 2f64.powi(-30) * sc)).unwrap_or(false);
+                    v.check(ok, name, &format!("{} scaled", class), &json!({"case": c, "scale_a_log2": sa}), json!(got.as_ref().map(|g| fjs(g))));
+                }
+            }
+        }
         for (name, got) in inverse_points(&a, n) {
             let ok = got.as_ref().map(|g| close_vec(g, &inv)).unwrap_or(false);
             v.check(ok, name, &class, &c, json!(got.as_ref().map(|g| fjs(g))));
